@@ -138,6 +138,11 @@ def run():
     zero = lambda m: z3.ForAll([j], z3.Implies(z3.And(0 <= j, j < m), A[j] == 0))
     prove('SUMR_ZERO base', z3.Implies(zero(0), SUMR(A, 0) == 0), *sumr_defs(A))
     prove('SUMR_ZERO step', z3.Implies(z3.And(n >= 0, z3.Implies(zero(n), SUMR(A, n) == 0), zero(n + 1)), SUMR(A, n + 1) == 0), *sumr_defs(A))
+    # sums of non-negative terms: the sum is non-negative and at least any one of its terms
+    nonneg = lambda m: z3.ForAll([j], z3.Implies(z3.And(0 <= j, j < m), A[j] >= 0))
+    sge = lambda m: z3.Implies(nonneg(m), z3.And(SUMR(A, m) >= 0, z3.Implies(z3.And(0 <= p, p < m), SUMR(A, m) >= A[p])))
+    prove('SUMR_GE base', sge(0), *sumr_defs(A))
+    prove('SUMR_GE step', z3.Implies(z3.And(n >= 0, sge(n)), sge(n + 1)), *sumr_defs(A))
     # DOT extension
     H = z3.Const('H', AR)
     o, st = z3.Ints('o st')
@@ -147,6 +152,15 @@ def run():
     prove('DOT_EXT base', z3.Implies(agr(0), DOT(A, o, st, H, 0) == DOT(B, o, st, H, 0)), *dot_defs(A, B))
     prove('DOT_EXT step', z3.Implies(z3.And(n >= 0, z3.Implies(agr(n), DOT(A, o, st, H, n) == DOT(B, o, st, H, n)), agr(n + 1)),
                                      DOT(A, o, st, H, n + 1) == DOT(B, o, st, H, n + 1)), *dot_defs(A, B))
+
+    # weighted mean between the bounds of the values when the weights are non-negative
+    lo_, hi_ = z3.Reals('lo_ hi_')
+    wdefs = [z3.And(SUMR(H, 0) == 0, z3.Implies(n >= 0, SUMR(H, n + 1) == SUMR(H, n) + H[n])),
+             z3.And(DOT(A, 0, 1, H, 0) == 0, z3.Implies(n >= 0, DOT(A, 0, 1, H, n + 1) == DOT(A, 0, 1, H, n) + A[0 + n * 1] * H[n]))]
+    whyp = lambda m: z3.ForAll([j], z3.Implies(z3.And(0 <= j, j < m), z3.And(H[j] >= 0, lo_ <= A[j], A[j] <= hi_)))
+    wcon = lambda m: z3.And(SUMR(H, m) >= 0, lo_ * SUMR(H, m) <= DOT(A, 0, 1, H, m), DOT(A, 0, 1, H, m) <= hi_ * SUMR(H, m))
+    prove('WMEAN base', z3.Implies(whyp(0), wcon(0)), *wdefs)
+    prove('WMEAN step', z3.Implies(z3.And(n >= 0, z3.Implies(whyp(n), wcon(n)), whyp(n + 1)), wcon(n + 1)), *wdefs)
 
     # ---- slices: the unit-stride consequences and the step equation follow from the definition of INSLICE
     a0, m0, c0, j0, k0 = z3.Ints('a0 m0 c0 j0 k0')
